@@ -178,6 +178,7 @@ func mListen(network, address string) (net.Listener, error) {
 		wFiles[address] = true
 	}
 	wEvents = append(wEvents, "listen")
+	wTrace("listen " + address)
 	return l, nil
 }
 
@@ -197,6 +198,7 @@ func (l *wListener) Close() error {
 	}
 	l.closed = true
 	close(l.closeCh)
+	wTrace("close listener " + l.addr.addr)
 	if l.addr.network == "unix" {
 		delete(wFiles, l.addr.addr)
 	}
@@ -461,4 +463,14 @@ func wConnHandshake(c *wConn) error {
 		cl, sv = c.peer, c
 	}
 	return wHandshake(cl.sec, sv.sec)
+}
+
+var wTraceN int
+var wTraceOn bool
+
+func wTrace(s string) {
+	if wTraceOn {
+		wTraceN++
+		vRecord(fmt.Sprintf("trace-%02d", wTraceN), fmt.Sprintf("t=%d proc=%d %s", vNow(), vCurProc(), s))
+	}
 }
